@@ -289,3 +289,217 @@ def check_guard_case(case):
             expect_type_error('%s.modelcheck(%r, %r)' % (Ln, nk, good), L.modelcheck, nk, good)
             expect_type_error('%s.modelcheck(%r, obj)' % (Ln, nk), L.modelcheck, nk, L.Parser()(good))
     return fails
+
+
+# ----------------------------------------------------------------------------
+# C11 / C09
+
+def _build_variants(L, t):
+    """the same tree built with object leaves and with str/bool leaves"""
+    return [trees.build(L, t), _raw_build(L, t, t[0] in ('ap', 'true', 'false'))]
+
+
+def check_eq_case(case):
+    """case = (logic, pool of trees, lo, hi): rows lo..hi-1 of the pair matrix,
+    plus per-formula clauses (reflexive, hash, clone, dict/set) for those rows"""
+    logic, pool, lo, hi = case
+    L = lang(logic)
+    objs = [trees.build(L, t) for t in pool]
+    fails = []
+    keys = set()
+
+    def bad(kind, what, i, j=None):
+        sub = [pool[i]] if j is None else [pool[i], pool[j]]
+        fails.append((kind, what, {'logic': logic}, (logic, sub, 0, len(sub))))
+    for i in range(lo, hi):
+        f, t = objs[i], pool[i]
+        alt = _raw_build(L, t, t[0] in ('ap', 'true', 'false'))
+        if not (f == f):
+            bad('__eq__:reflexive', '%s formula %s is not equal to itself' % (logic, trees.to_text(t)), i)
+        if not (f == alt) or not (alt == f) or hash(f) != hash(alt):
+            bad('__eq__:same_tree', 'the same tree %s built from strings and from objects compares unequal or hashes differently' % (t,), i)
+        c = call(f.clone)
+        if c[0] != 'ok':
+            bad('clone:raises', 'clone of %s raised %s' % (trees.to_text(t), c[1]), i)
+        else:
+            g = c[1]
+            if not (g == f and f == g) or trees.tree(g) != t or g.__class__ is not f.__class__:
+                bad('clone:ensures:equal', 'clone of %s is %s' % (trees.to_text(t), trees.tree(g)), i)
+            if hash(g) != hash(f):
+                bad('clone:ensures:hash', 'clone of %s hashes differently' % (trees.to_text(t),), i)
+            if set(id(n) for n in trees.all_nodes(g)) & set(id(n) for n in trees.all_nodes(f)):
+                bad('clone:fresh', 'clone of %s shares a node object with the original' % (trees.to_text(t),), i)
+            if any(id(getattr(n, '_subformula', None)) == id(getattr(m, '_subformula', 0))
+                   for n in trees.all_nodes(g) for m in trees.all_nodes(f) if hasattr(n, '_subformula')):
+                bad('clone:fresh', 'clone of %s shares a child list with the original' % (trees.to_text(t),), i)
+        for j in range(len(pool)):
+            g, u = objs[j], pool[j]
+            e = (f == g)
+            keys.add((logic, i, j))
+            if e != (t == u):
+                bad('__eq__:iff_same_tree', '%s == %s is %r (trees %s)' % (trees.to_text(t), trees.to_text(u), e,
+                                                                          'equal' if t == u else 'differ'), i, j)
+            if e != (g == f):
+                bad('__eq__:symmetric', '%s == %s is %r but the converse is %r' % (trees.to_text(t), trees.to_text(u), e, g == f), i, j)
+            if e and hash(f) != hash(g):
+                bad('__hash__:ensures', 'equal formulas %s and %s hash differently' % (trees.to_text(t), trees.to_text(u)), i, j)
+            if e != ((f != g) is False):
+                bad('__eq__:ne_consistent', '!= disagrees with == on %s, %s' % (trees.to_text(t), trees.to_text(u)), i, j)
+        d = {f: i}
+        s = {f}
+        for j in range(len(pool)):
+            if (objs[j] in d) != (pool[j] == t) or (objs[j] in s) != (pool[j] == t):
+                bad('__hash__:one_key', 'dict/set membership of %s against key %s is wrong' % (trees.to_text(pool[j]), trees.to_text(t)), i, j)
+    return {'fails': fails, 'n': (hi - lo) * len(pool), 'keys': keys}
+
+
+def check_bool_eq_case(case):
+    logic = case
+    L = lang(logic)
+    fails = []
+    for b in (True, False):
+        B = L.Bool(b)
+        for label, v in (('Bool(b) == b', B == b), ('b == Bool(b)', b == B),
+                         ('not (Bool(b) == (not b))', not (B == (not b))), ('not ((not b) == Bool(b))', not ((not b) == B)),
+                         ('Bool(b) == Bool(b)', B == L.Bool(b)), ('hash', hash(B) == hash(L.Bool(b))),
+                         ('Bool(b) != Bool(not b)', not (B == L.Bool(not b))),
+                         ('Bool(b) != atom', not (B == L.AtomicProposition('p')) and not (L.AtomicProposition('p') == B))):
+            if v is not True:
+                fails.append(('Bool.__eq__', '%s fails for %s.Bool(%r)' % (label, logic, b), {'logic': logic}))
+    return fails
+
+
+def check_triples_case(case):
+    """transitivity on sampled triples: case = (logic, [t1,t2,t3] list)"""
+    logic, triples = case
+    L = lang(logic)
+    fails = []
+    for a, b, c in triples:
+        A, B, C = (trees.build(L, x) for x in (a, b, c))
+        if A == B and B == C and not A == C:
+            fails.append(('__eq__:transitive', 'not transitive on %s, %s, %s' % (a, b, c), {'logic': logic}, (logic, [(a, b, c)])))
+    return {'fails': fails, 'n': len(triples), 'keys': set((logic, t) for t in triples)}
+
+
+_PARSERS = {}
+
+
+def parser_for(logic):
+    if logic not in _PARSERS:
+        _PARSERS[logic] = lang(logic).Parser()
+    return _PARSERS[logic]
+
+
+def check_roundtrip_case(case):
+    """case = (logic, [trees]): Parser()(str(f)) has the same tree and logic.
+    CTL formulas are printed in CTL* notation (cast_to(CTLS)) and parsed by the
+    CTL* parser, as the property states."""
+    logic, ts = case
+    L = lang(logic)
+    fails = []
+    keys = set()
+    for t in ts:
+        def bad(kind, what):
+            fails.append((kind, what, {'logic': logic}, (logic, [t])))
+        f = trees.build(L, t)
+        keys.add((logic, t))
+        if logic == 'CTL':
+            import pyModelChecking.CTLS as CTLS
+            g = f.cast_to(CTLS)
+            text = str(g)
+            r = call(parser_for('CTLS'), text)
+            target = 'CTLS'
+        else:
+            text = str(f)
+            r = call(parser_for(logic), text)
+            target = logic
+        if r[0] != 'ok':
+            bad('roundtrip:parse_error', 'printed form %r of %s formula %s does not parse: %s' % (text, logic, t, r[1:]))
+            continue
+        rt = trees.tree(r[1])
+        if rt != t:
+            bad('roundtrip:tree', 'printed form %r of %s parses to %s' % (text, t, rt))
+        if trees.langs_in(r[1]) != {target}:
+            bad('roundtrip:lang', 'printed form %r parses to a formula with nodes of %r' % (text, trees.langs_in(r[1])))
+        if logic == 'CTL':
+            # native CTL print form also belongs to the property's consequence (memo keys): parse with CTL parser
+            r2 = call(parser_for('CTL'), str(f))
+            if r2[0] == 'ok' and trees.tree(r2[1]) != t:
+                bad('roundtrip:tree', 'CTL print form %r of %s parses (CTL parser) to %s' % (str(f), t, trees.tree(r2[1])))
+    return {'fails': fails, 'n': len(ts), 'keys': keys}
+
+
+def check_injective_case(case):
+    """case = (logic, pool): different trees never print identically (native
+    print form of the logic, which is what memo tables and == use)"""
+    logic, pool = case
+    L = lang(logic)
+    seen = {}
+    fails = []
+    for t in pool:
+        s = str(trees.build(L, t))
+        if s in seen and seen[s] != t:
+            fails.append(('print:injective', '%s formulas %s and %s both print as %r' % (logic, seen[s], t, s),
+                          {'logic': logic}, (logic, [seen[s], t])))
+        seen.setdefault(s, t)
+    return {'fails': fails, 'n': len(pool), 'keys': set((logic, t) for t in pool)}
+
+
+# ----------------------------------------------------------------------------
+# C10
+
+def check_parse_case(case):
+    """case = (logic, [strings], compare): contract of Parser.__call__ -
+    returns a formula of exactly this logic, or raises the package's
+    UnexpectedToken/UnexpectedCharacters with 0 <= pos <= len(string); when
+    `compare`, acceptance and tree are compared with the documented grammar
+    (vf/spec/docgrammar.py)."""
+    from ..spec import docgrammar
+    import pyModelChecking.parser as P
+    logic, strings, compare = case
+    fails = []
+    keys = set()
+    p = parser_for(logic)
+    for s in strings:
+        def bad(kind, what):
+            fails.append((kind, '%s on %s.Parser()(%r)' % (what, logic, s), {'logic': logic}, (logic, [s], compare)))
+        try:
+            r = ('ok', p(s))
+        except (P.UnexpectedToken, P.UnexpectedCharacters) as e:
+            r = ('perr', e)
+        except Exception as e:
+            r = ('other', e)
+        doc = None
+        if compare:
+            try:
+                doc = docgrammar.parse(logic, s)
+            except docgrammar.LexError:
+                doc = 'lex'
+        if r[0] == 'ok':
+            keys.add((logic, s))
+            f = r[1]
+            ok_obj = hasattr(f, '_subformula') or hasattr(f, 'name') or hasattr(f, '_value')
+            if not ok_obj:
+                bad('parser:ensures:formula', 'returned %r, not a formula' % (f,))
+                continue
+            rt = trees.tree(f)
+            if trees.langs_in(f) != {logic}:
+                bad('parser:ensures:lang', 'returned a formula with nodes of %r' % (trees.langs_in(f),))
+            if not trees.wf_any(logic, rt):
+                bad('parser:ensures:wf', 'returned %s, not a %s formula' % (rt, logic))
+            if compare:
+                if doc == 'lex' or not doc:
+                    bad('parser:accepts_excluded', 'accepted (as %s) a string the documented grammar excludes' % (rt,))
+                elif rt not in doc:
+                    bad('parser:ensures:tree', 'parsed to %s, the documented grammar gives %s' % (rt, sorted(doc)))
+        elif r[0] == 'perr':
+            e = r[1]
+            if not isinstance(e.pos, int) or not (0 <= e.pos <= len(s)):
+                bad('parser:raises:pos', 'error position %r outside [0,%d]' % (e.pos, len(s)))
+            if e.string != s:
+                bad('parser:raises:string', 'error carries string %r' % (e.string,))
+            # rejecting a documented string is not a C10 violation (C09/C04 cover
+            # print->parse and text-vs-object); it is only counted
+        else:
+            bad('parser:raises:class', 'raised %s (%s)' % (type(r[1]).__name__, str(r[1])[:120]))
+    return {'fails': fails, 'n': len(strings), 'keys': keys}
